@@ -1,6 +1,7 @@
 import XmppVerif.Fx
 import XmppVerif.Gen.Fx
 import XmppVerif.Model.Recv
+import XmppVerif.Model.C18
 /-
 Tie (regenerated MODEL, trace semantics): ONE PASS of the receive loops and of the keepalive, on every path.
 
@@ -165,6 +166,25 @@ theorem component_model_is_the_code :
     ((iterTraces (body "Component.recv")).map fun ts =>
         sameSet (ts.map (passOfTrace "Component")) (inputClasses.map passOfComponentModel)) = some true := by decide +kernel
 
+/-- a pass of the keepalive, abstractly: pinged, closed the transport, stopped the ticker, returned -/
+abbrev KPass := Bool × Bool × Bool × Bool
+
+def kpassOfTrace (t : List Act) : KPass :=
+  (t.contains (.call "Transport.Ping"), t.contains (.call "Transport.Close"), t.contains (.call "Ticker.Stop"), ends_ "return " t)
+
+/-- the model's three non-blocked iterations: a tick whose ping succeeds, a tick whose ping fails, the quit arm -/
+def kpassesOfModel : List KPass :=
+  let p (s : Model.C18.St) (fails choose : Bool) : KPass :=
+    let r := Model.C18.step s (.iter fails choose)
+    (r.2.contains .ping, r.2.contains .close, r.2.contains .stop, r.1.stopped)
+  [p ⟨true, false, false⟩ false true, p ⟨true, false, false⟩ true true, p ⟨false, true, false⟩ false false]
+
+/-- **`Model.C18.step` = one pass of the regenerated `keepalive`** (both inclusions) -/
+theorem keepalive_model_is_the_code :
+    ((iterTraces (body "keepalive")).map fun ts =>
+      let a := ts.map kpassOfTrace
+      a.all kpassesOfModel.contains && kpassesOfModel.all a.contains) = some true := by decide +kernel
+
 -- the comparison is not vacuous: a model without its cut case, or one that counted acknowledgement requests, differs
 example : ((iterTraces (body "Client.recv")).map fun ts =>
     sameSet (ts.map (passOfTrace "Client")) ((inputClasses.drop 1).map passOfModel)) = some false := by decide +kernel
@@ -192,3 +212,4 @@ end XmppVerif.Tie.FxRecv
 #print axioms XmppVerif.Tie.FxRecv.keepalive_pass_every_run
 #print axioms XmppVerif.Tie.FxRecv.client_model_is_the_code
 #print axioms XmppVerif.Tie.FxRecv.component_model_is_the_code
+#print axioms XmppVerif.Tie.FxRecv.keepalive_model_is_the_code
